@@ -242,6 +242,17 @@ def run(ctx):
     A = leaves["A"]
     ctx.twin("twin/sum-is-not-product", z3.And(*[f for _, f in W.entries_eq((A + leaves["B"]).weak_form().to_dense(), (A.mat @ Minv["p1"] @ leaves["B"].mat).view(SA))]), [], abs_cons=False)
 
+    # ---------------- single-precision real leaves: the VALUES of every result are those of the matrix expression
+    # (the branch "real operator, complex operand" must not depend on the operator being float64)
+    for knd in ("dense", "sparse"):
+        L32 = SymOp("S" + knd[0], "p1", "p1", "p1", knd)
+        L32.mat.decl = "float32"
+        for tnm, real, spec in (("leaf", L32, L32.mat), ("2L-L", 2.0 * L32 - L32, L32.mat), ("L+A", L32 + leaves["A"], (L32.mat + leaves["A"].mat).view(SA))):
+            try:
+                check_tree(("f32", knd, tnm), real, spec, ("p1", "p1", "p1"), "d1/f32-%s-%s" % (knd, tnm))
+            except (ValueError, TypeError, AttributeError, IndexError, RuntimeError, AssertionError) as ex:
+                ctx.violation("d1/f32-%s-%s/evaluation-raises" % (knd, tnm), "tree", {"tree": repr(("f32", knd, tnm))}, "%s: %s" % (type(ex).__name__, str(ex)[:200]))
+
     # ---------------- grid-function arithmetic
     cf = sym_array("f", (5,))
     cg = sym_array("g", (5,), complex_=True)
@@ -368,6 +379,15 @@ def concrete(family, params):
         cmp("strong", A.strong_form().to_dense(), np.linalg.solve(Mp1, mA))
         f = b.GridFunction(p1, coefficients=x.real)
         cmp("A*f", (A * f).projections(), mA @ x.real)
+        # single-precision real operator applied to complex data (values to single precision)
+        A32 = L.double_layer(p1, p1, p1, precision="single")
+        m32 = np.asarray(A32.weak_form().to_dense(), dtype=float)
+        X2 = rng.rand(p1.global_dof_count, 2) + 1j * rng.rand(p1.global_dof_count, 2)
+        for nm32, got32, exp32 in (("single @ complex matrix", A32.weak_form() @ X2, m32 @ X2), ("single @ complex vector", A32.weak_form() @ x, m32 @ x),
+                                   ("single * complex GridFunction", (A32 * b.GridFunction(p1, coefficients=x)).projections(), m32 @ x)):
+            g32 = float(np.max(np.abs(np.asarray(got32) - exp32)) / np.max(np.abs(exp32)))
+            if g32 > 1e-5:
+                cmp(nm32, got32, exp32)
         # products whose factors are tested against DIFFERENT spaces: everything derived from the product's declared spaces
         try:
             CD = C * D  # D: p1 -> dp0 tested with dp0, C: dp0 -> p1 tested with p1
